@@ -681,6 +681,9 @@ func (pm *Portmapper) handleRpcbSet(r io.Reader) []byte {
 	if uaddr != "" {
 		var a, b, c, d, hi, lo int
 		if _, err := fmt.Sscanf(uaddr, "%d.%d.%d.%d.%d.%d", &a, &b, &c, &d, &hi, &lo); err == nil {
+			if hi < 0 || hi > 255 || lo < 0 || lo > 255 {
+				return pm.encodeBool(false)
+			}
 			port = uint32(hi*256 + lo)
 		}
 	}
